@@ -522,7 +522,14 @@ func c05ValidGo(src string) bool {
 // short-circuit jumps of a chain are where a code generator can regroup what the parser grouped correctly)
 // against the evaluation of go/parser's tree.
 func c05BoolChains(st *stats) {
-	atoms := []string{"p", "q", "r", "s"}
+	c05BoolChainsOver(st, "bool", []string{"p", "q", "r", "s"})
+	// comparisons as operands: a negation in front of a group whose last operand is a comparison, a comparison
+	// next to a short-circuit jump target ...
+	c05BoolChainsOver(st, "cmp", []string{"a == b", "p", "c != d", "a < c"})
+	c05BoolChainsOver(st, "cmp2", []string{"p", "a == b", "q", "c != d"})
+}
+
+func c05BoolChainsOver(st *stats, tag string, atoms []string) {
 	ops := []string{"&&", "||"}
 	var exprs []string
 	shapes4 := []string{"A o1 B o2 C o3 D", "(A o1 B) o2 C o3 D", "A o1 (B o2 C) o3 D", "A o1 B o2 (C o3 D)", "(A o1 B o2 C) o3 D", "A o1 (B o2 C o3 D)",
@@ -534,6 +541,9 @@ func c05BoolChains(st *stats) {
 			v := a
 			if neg == i+1 {
 				v = "!" + a
+				if strings.Contains(a, " ") {
+					v = "!(" + a + ")"
+				}
 			}
 			e = strings.ReplaceAll(e, string(rune('A'+i)), v)
 		}
@@ -571,9 +581,9 @@ func c05BoolChains(st *stats) {
 	}
 	var sb strings.Builder
 	for i, e := range uniq {
-		fmt.Fprintf(&sb, "func bc%d(p bool, q bool, r bool, s bool) bool { return %s }\n", i, e)
+		fmt.Fprintf(&sb, "func bc%d(p bool, q bool, r bool, s bool, a int, b int, c int, d int) bool { return %s }\n", i, e)
 		// the same chain as the condition of an if, where the last jump of the chain is the statement's own
-		fmt.Fprintf(&sb, "func bi%d(p bool, q bool, r bool, s bool) int { if %s { return 1 }; return 0 }\n", i, e)
+		fmt.Fprintf(&sb, "func bi%d(p bool, q bool, r bool, s bool, a int, b int, c int, d int) int { if %s { return 1 }; return 0 }\n", i, e)
 	}
 	var out bytes.Buffer
 	vm := g.New(g.WithStdout(&out))
@@ -584,16 +594,24 @@ func c05BoolChains(st *stats) {
 	for i, e := range uniq {
 		ge, err := parser.ParseExpr(e)
 		must(err)
-		for m := 0; m < 16; m++ {
+		for m := 0; m < 256; m++ {
+			if tag == "bool" && m >= 16 {
+				break // the integer operands do not occur
+			}
 			env := map[string]tval{}
 			var args []g.Value
-			for k, a := range atoms {
+			for k, a := range []string{"p", "q", "r", "s"} {
 				b := m>>k&1 == 1
 				env[a] = tval{isBool: true, b: b}
 				args = append(args, g.Bool(b))
 			}
+			for k, a := range []string{"a", "b", "c", "d"} {
+				x := int32(m >> (4 + k) & 1)
+				env[a] = tval{i: x}
+				args = append(args, g.Int32(x))
+			}
 			v, _ := goEval(ge, env)
-			st.add("boolean chain", e)
+			st.add("boolean chain ("+tag+")", e)
 			for _, form := range []string{"bc", "bi"} {
 				rets, err := vm.Call(fmt.Sprintf("main.%s%d", form, i), 1, args...)
 				got := "error"
@@ -609,10 +627,10 @@ func c05BoolChains(st *stats) {
 				}
 				if got != want {
 					st.mismatchG("value|boolean chain", c05Mismatch{Kind: "value", Expr: e, Ops: form, Expected: want, Got: got,
-						Env: fmt.Sprintf("p=%v q=%v r=%v s=%v", env["p"].b, env["q"].b, env["r"].b, env["s"].b)})
+						Env: fmt.Sprintf("p=%v q=%v r=%v s=%v a=%d b=%d c=%d d=%d", env["p"].b, env["q"].b, env["r"].b, env["s"].b, env["a"].i, env["b"].i, env["c"].i, env["d"].i)})
 				}
 			}
 		}
 	}
-	st.Extra["boolean_chains"] = len(uniq)
+	st.Extra["boolean_chains_"+tag] = len(uniq)
 }
